@@ -1378,7 +1378,7 @@ func TestVerifC12SRace(t *testing.T) {
 	res.Rule = "case = one free-running execution (real sync primitives, Go race detector) of one thread scenario of the sched part; non-trivial = every one (all scenarios have >= 2 threads on shared tables)"
 	res.Assumptions = []string{"race part: schedules are whatever the Go runtime produces (not enumerated); it only adds data-race detection to the sched part"}
 	cmd := exec.Command(os.Args[0], "-test.run", "^TestVerifC12SRace$", "-test.count", "1", "-test.timeout", "0")
-	cmd.Env = append(os.Environ(), "VERIF_RACE_CHILD=1", fmt.Sprintf("VERIF_RACE_ITERS=%d", iters), "GORACE=halt_on_error=0", "VERIF_OUT=")
+	cmd.Env = append(os.Environ(), "VERIF_RACE_CHILD=1", fmt.Sprintf("VERIF_RACE_ITERS=%d", iters), "GORACE=halt_on_error=0", "VERIF_OUT=", "GOMAXPROCS=4")
 	var buf bytes.Buffer
 	cmd.Stdout = &buf
 	cmd.Stderr = &buf
